@@ -244,7 +244,7 @@ func (a *BoolArg) Parse() error {
 	case "false":
 		a.b = false
 	default:
-		return errors.New("invalid boolean argument: " + string(a.arg))
+		return &strconv.NumError{Func: "ParseBool", Num: string(a.arg), Err: strconv.ErrSyntax}
 	}
 	return nil
 }
